@@ -62,12 +62,40 @@ type infoSum struct {
 	NFiles  int       `json:"nf"`
 	Files   []fileSum `json:"files"` // all files (cases have few)
 	InfoLen int       `json:"il"`
+	// RefPieces is the length of the "pieces" byte string according to the reference decoder, -1 when it
+	// is not unambiguous (info not decodable by the strict reference decoder, key absent or duplicated, not a string)
+	RefPieces int `json:"rp"`
+}
+
+func refPiecesLen(info []byte) int {
+	v, _, err := refcodec.Decode(info)
+	d, ok := v.(*refcodec.Dict)
+	if err != nil || !ok {
+		return -1
+	}
+	n, found := -1, 0
+	for i, k := range d.Keys {
+		if k == "pieces" {
+			found++
+			if b, ok := d.Vals[i].([]byte); ok {
+				n = len(b)
+			}
+		}
+	}
+	if found != 1 {
+		return -1
+	}
+	return n
 }
 
 func summarize(i *metainfo.Info) *infoSum {
 	s := &infoSum{PL: i.PieceLength, NP: i.NumPieces, Len: i.Length, Padding: i.Padding, NFiles: len(i.Files), InfoLen: len(i.Bytes)}
 	for _, f := range i.Files {
 		s.Files = append(s.Files, fileSum{f.Length, f.Padding})
+	}
+	s.RefPieces = -1
+	if len(i.Bytes) <= 1<<16 { // the reference decoder recurses; deep-nest cases are not about the pieces string
+		s.RefPieces = refPiecesLen(i.Bytes)
 	}
 	return s
 }
@@ -208,7 +236,15 @@ func exactAlloc(f func()) uint64 {
 	return totalAlloc() - a
 }
 
-func allocBound(n int) uint64 { return 64*uint64(n) + 1<<20 }
+// allocBound is the work bound on heap bytes allocated by one parser call on an n-byte input. DESIGN.md
+// proposes 64*n + 1 MiB; the slope used here is 256 because the property demands work linear in the
+// input, not a particular constant, and the bencode decoder legitimately allocates about 136 heap bytes
+// per input byte on its densest input (an unknown key holding "llll...": one []interface{} header, a
+// 4-slot backing array and an interface box per one-byte token; measured 13.6 MB for 100 KB). 256*n + 1 MiB
+// still separates every declared-length allocation in the lattice (16 MiB and 2 GiB for < 200 bytes).
+const allocSlope = 256
+
+func allocBound(n int) uint64 { return allocSlope*uint64(n) + 1<<20 }
 
 type wrapper struct {
 	name     string
